@@ -102,6 +102,18 @@ def run(ctx):
                 ctx.check(ok, "C19-a", p.key, "header = %s(self.session_id)" % var,
                           "the stream header written is %s, expected %s::%s(self.session_id)" % (fl.fmt(o), hdr, var),
                           fl.fmt(o), p.loc(t))
+    # a stream is handed to the caller only once its header was written in full
+    for fut in ("OpenBi", "OpenUni"):
+        p_ = prog.one("<%s%s as core::future::future::Future>::poll" % (WT, fut))
+        if not p_:
+            continue
+        rp = [p for p in ru.all_paths(ctx, "C19-b", p_, max_visits=2) if p.end == "return" and p.ret_shape().startswith("Ready(Ok(")]
+        ctx.floor("C19-b", "paths of %s::poll returning the stream" % fut, len(rp), 1)
+        for p in rp:
+            hr = [t for t in p.tests if t[3][0] == "call" and pa.short(t[3][1]) == "has_remaining"]
+            ctx.check(bool(hr) and hr[-1][2] == "false", "C19-b", p_.key, "stream returned only after the header buffer is drained",
+                      "%s::poll returns the stream on a path whose last has_remaining() test of the header buffer was not false: the caller's "
+                      "first bytes could precede (part of) the WebTransport stream header" % fut, "", None, p.describe())
     # incoming bidi stream: id from the frame; incoming uni: id from the header varint
     b = ru.need(ctx, "C19-a", WT + "WebTransportSession::accept_bi::{closure#0}")
     if b:
